@@ -45,7 +45,10 @@ TGridNew ==
         /\ (E.threw = "" /\ acc) =>
              /\ Has("C17") => /\ Chk("C17.StatusArray", l, E.st = StSeq(d) /\ E.n = Size(d))
                               /\ Chk("C17.StatusArray.NoCache", l, E.st_nc = StSeq(d))
-             /\ Has("C07") => /\ Chk("C07.SpecSymmetric", l, NeighSymmetric(d))
+             \* (theorems about the specification itself: evaluated on the small grids of the complete
+             \* enumeration, not again on the wide ones)
+             /\ (Has("C07") /\ Size(d) <= 40) =>
+                              /\ Chk("C07.SpecSymmetric", l, NeighSymmetric(d))
                               /\ (d.t = "raster") => Chk("C07.DegreeTable", l, \A i \in Nodes(d) : Len(NeighSeq(d, i)) = RasterDegree(d, i))
              /\ (Has("C18") /\ d.t = "mesh") =>
                    /\ Chk("C18.SpecSymmetricNoDuplicates", l, NeighSymmetric(d) /\ MeshNoDuplicates(d))
